@@ -451,6 +451,12 @@ func genC11(c *ctx) {
 		if f := cloneOracle([]*macaroon.CaveatSet{macaroon.NewCaveatSet(), {}, dec, macaroon.NewCaveatSet(&rd), three}); f != "" {
 			st.Add(&cs.Case{Coq: "(KSkip [] false 0%N)", Desc: map[string]any{"op": "CaveatSet.Clone independence"}, Class: "clone", Nontrivial: true, OracleFail: f})
 		}
+		if f := unrelatedActivityOracle(true); f != "" {
+			st.Add(&cs.Case{Coq: "(KSkip [] false 0%N)", Desc: map[string]any{"op": "held encodings of several KiB while other tokens are encoded"}, Class: "held-bytes", Nontrivial: true, OracleFail: f})
+		}
+		if f := callerSliceOracle(); f != "" {
+			st.Add(&cs.Case{Coq: "(KSkip [] false 0%N)", Desc: map[string]any{"op": "NewCaveatSet and the caller's list"}, Class: "caller-slice", Nontrivial: true, OracleFail: f})
+		}
 		if f := tokenCloneOracle(); f != "" {
 			st.Add(&cs.Case{Coq: "(KSkip [] false 0%N)", Desc: map[string]any{"op": "Macaroon.Clone encodes as the original"}, Class: "clone", Nontrivial: true, OracleFail: f})
 		}
@@ -763,6 +769,18 @@ func exerciseHeader(h string) {
 	if b != nil {
 		b.Header()
 		b.UndischargedThirdPartyTickets()
+		// counting with filters that look at the whole list, then printing, copying and verifying the same bundle
+		cb := b.Clone()
+		cb.Count(cb.IsMissingDischarge("https://tp.test"))
+		cb.Any(cb.WithDischarges(bundle.KeepAll))
+		cb.Count(bundle.LocationFilter("https://loc.test"))
+		cb.Any(cb.IsMissingDischarge("https://tp4.test"))
+		cb.Header()
+		_ = cb.String()
+		cb.Select(bundle.KeepAll).Header()
+		cb.Clone().Verify(context.Background(), exResolver)
+		cb.Verify(context.Background(), exResolver)
+		cb.Len()
 		// verifying: with a resolver that knows none of the key-ids, one that knows the short ones, and through a cache
 		b.Clone().Verify(context.Background(), bundle.WithKey([]byte("a key-id no token has"), exKey, nil))
 		b.Clone().Verify(context.Background(), exResolver)
@@ -797,6 +815,38 @@ func genC12(c *ctx) {
 				OracleFail: fmt.Sprintf("decoding the %d-byte input %x in a child process limited to 3 GB of address space fails (%v): %s", len(in), in, err, tail)})
 			c.set.Notes["length_prefix_child"] = "failed: the in-process fuzz is skipped"
 			return
+		}
+	}
+	// scale: a length prefix that lies, in front of MANY well-formed caveats (more than any internal pre-size): decoding may
+	// allocate for what is there, never for what is announced; also honest large sets, nested in a conditional, and as a token
+	for _, count := range []int{63, 64, 65, 66, 130, 300} {
+		var body []byte
+		for i := 0; i < count; i++ {
+			body = append(body, 0x08, 0x91)
+			body = append(body, mpUint(uint64(i))...)
+		}
+		for _, announce := range []uint32{uint32(2 * count), 1 << 16, 1 << 20, 1 << 22} {
+			in := append([]byte{0xdd, byte(announce >> 24), byte(announce >> 16), byte(announce >> 8), byte(announce)}, body...)
+			for _, nested := range []bool{false, true} {
+				input := in
+				if nested {
+					input = append(append([]byte{0x92, 0x0d, 0x92}, in...), 0x00)
+				}
+				runtime.GC()
+				runtime.GC()
+				dres := measure(func() {
+					macaroon.DecodeCaveats(input)
+					macaroon.Decode(input)
+				})
+				dbound := uint64(64*len(input)) + 8<<20
+				f := ""
+				if dres.panicked != "" {
+					f = "panic: " + dres.panicked
+				} else if dres.alloc > dbound {
+					f = fmt.Sprintf("decoding a %d-byte input (array header announcing %d elements in front of %d well-formed caveats, nested in a conditional: %v) allocated %d bytes (bound %d)", len(input), announce, count, nested, dres.alloc, dbound)
+				}
+				st.Add(&cs.Case{Coq: "(KSkip [] false 0%N)", Desc: map[string]any{"kind": "lying-length-many-caveats", "announced": announce, "caveats": count, "nested": nested, "decode_alloc": dres.alloc}, Class: "malformed/lying-length-many-caveats", Nontrivial: true, OracleFail: f})
+			}
 		}
 	}
 	r := c.r
